@@ -82,6 +82,10 @@ def work(args):
                 for st in UNDOC:
                     if st not in [int(r.status_code) for r in ep.responses]:
                         trials.append((st, b'{"x": 1}', "application/json"))
+                und = next((st for st in (502, 508, 418) if st not in [int(r.status_code) for r in ep.responses]), None)
+                if und is not None:
+                    trials.append((und, b"\x1f\x8b\x08\x00\xff\xfe upstream d\xe9faillance", "application/octet-stream"))   # not UTF-8
+                    trials.append((und, b"", None))
                 for (st, content, ct) in trials:
                     for flag in (False, True):
                         rsp = {"status": st, "content_hex": content.hex(), "headers": ({"content-type": ct, "x-custom": "kept"} if ct else {"x-custom": "kept"})}
